@@ -21,8 +21,13 @@ RULE = ("traces over 1-3 issuers (one real client each, with and without RPHandl
         "own/other flow/other issuer/none x iss parameter absent/right/wrong x client_id parameter "
         "absent/right/wrong; token response: addressed (issuer, state) x ID token with nonce of own/other "
         "flow/other issuer, subject = another flow's nonce, direct or routed through the state; user info: sub "
-        "right/wrong), followed by random multi-fault histories of 8-20 operations; a trace is non-trivial "
-        "when it has at least two pending flows and at least one accepted and one refused delivery")
+        "right/wrong), followed by random multi-fault histories of 8-20 operations; hybrid / implicit flows: for "
+        "each response type of {code id_token token, code id_token, code token, id_token token, id_token} three "
+        "pending flows (two on one client, one at another issuer) and EVERY front-channel response recombined member "
+        "by member out of their genuine artefacts - state of A x code of A/B/absent x signed ID Token of A/B/C/absent "
+        "(its own nonce, c_hash of its own code, at_hash of its own access token) x access token of A/B/absent - "
+        "then the genuine responses of A and B, plus random histories of such deliveries over all response types; "
+        "a trace is non-trivial when it has at least two pending flows and at least one accepted and one refused delivery")
 ASSUMPTIONS = [
     "state and nonce values drawn by the client (rndstr) are fresh: they are fed to the model as observed",
     "ID-token validation is the model of C08 (Model/IdToken.v) with ideal signatures",
@@ -39,6 +44,8 @@ class Flow:
         self.n, self.issuer, self.state, self.nonce, self.user, self.rt = n, issuer, state, nonce, user, rt
         self.code = "code-%d" % n
         self.at = "at-%d" % n
+        self.aat = "aat-%d" % n       # the access token the authorization endpoint hands out (hybrid / implicit)
+        self.tok = None               # the flow's own ID Token of the authorization endpoint (hybrid_flows)
 
 
 def idtoken(flow, now, hybrid, sub=None, nonce=None, issuer=None):
@@ -111,7 +118,82 @@ def deliver_token(world, flows, to_issuer, state_of, idt_of, sub=None, routed=Fa
     return world.token(to_issuer, st, params, tok, routed=routed)
 
 
+RT_HYBRID = ["code id_token token", "code id_token", "code token", "id_token token", "id_token"]
+
+
+def mint_own(flow, now, sig=None):
+    """The ID Token the provider of the flow's issuer mints at the authorization endpoint for THIS flow: its nonce,
+    its user, c_hash of its code when the response type has a code, at_hash of its access token when the response
+    type has a token (OIDC Core 3.3.2.11).  sig: (alg, signer, kid) other than the issuer's RS256 key."""
+    signer, kid = SIGNER[flow.issuer]
+    alg = "RS256"
+    if sig is not None:
+        alg, signer, kid = sig
+    bits = int(alg[-3:])
+    rt = flow.rt.split(" ")
+    claims = {"iss": flow.issuer, "sub": flow.user, "aud": [H.CLIENT_ID], "exp": now + 300, "iat": now - 2,
+              "nonce": flow.nonce}
+    if "code" in rt:
+        claims["c_hash"] = H.left_hash_ref(flow.code, bits)
+    if "token" in rt:
+        claims["at_hash"] = H.left_hash_ref(flow.aat, bits)
+    flow.tok = {"alg": alg, "kid": kid, "signer": signer, "sigfault": None, "claims": claims}
+    return flow
+
+
+def genuine_members(flow):
+    """which members the genuine front-channel response of the flow has: (code, ID Token, access token)"""
+    rt = flow.rt.split(" ")
+    return ("code" in rt, "id_token" in rt, "token" in rt)
+
+
+def deliver_genuine(world, flow, to=None):
+    c, i, t = genuine_members(flow)
+    return world.authz_hybrid(to or flow.issuer, flow, flow if c else None, flow if i else None, flow if t else None)
+
+
 # ---------------------------------------------------------------------------------- the oracle
+def hybrid_oracle(ctx, flows, det, target, issued, ok, after_db, what, rec):
+    """Ground truth = the flow every member was taken from.  A response that carries a (signed) ID Token is
+    acceptable only if ALL its members are artefacts of the flow its state names, and what is then stored
+    under that state are that flow's own code / access token / ID-token claims."""
+    mem = det["members"]
+    byn = {f.n: f for f in flows}
+    owner = byn[mem["state"]]
+    foreign = [m for m in ("code", "id_token", "access_token") if mem[m] is not None and mem[m] != mem["state"]]
+    if not ok:
+        ctx.count("verdict:hybrid-%s-refused" % ("recombined" if foreign else "own"))
+        shape = (mem["code"] is not None, mem["id_token"] is not None, mem["access_token"] is not None)
+        if not foreign and det["issuer"] == owner.issuer and shape == genuine_members(owner):
+            # not a clause of the property (which only says what may be accepted), but the observable face of
+            # "after a refused response the pending flow is unchanged": its genuine response is still served
+            ctx.count("verdict:hybrid-genuine-response-refused")
+        return
+    if mem["id_token"] is None:
+        # no ID Token: nothing in the response ties a code / access token to the state (OAuth 2.0 leaves that to
+        # the token endpoint); the property's binding clause is about responses with an ID Token
+        ctx.count("verdict:hybrid-without-idtoken-accepted")
+        return
+    ctx.count("verdict:hybrid-%s-accepted" % ("recombined" if foreign else "own"))
+    for m in foreign:
+        ctx.violation("hybrid-member-of-other-flow-accepted:" + m,
+                      "authorization response for the state of flow %d accepted although its %s belongs to flow %d: %s"
+                      % (mem["state"], m, mem[m], what), rec)
+    stored = after_db.get(target, {})
+    if target in issued:
+        if mem["code"] is not None and stored.get("code") != owner.code:
+            ctx.violation("hybrid-foreign-artefact-stored:code", "code %r recorded under the state of flow %d (its code is %r): %s"
+                          % (stored.get("code"), owner.n, owner.code, what), rec)
+        if mem["access_token"] is not None and stored.get("access_token") != owner.aat:
+            ctx.violation("hybrid-foreign-artefact-stored:access_token", "access token %r recorded under the state of flow %d "
+                          "(its access token is %r): %s" % (stored.get("access_token"), owner.n, owner.aat, what), rec)
+        vid = stored.get("__verified_id_token")
+        if not isinstance(vid, dict) or vid.get("nonce") != owner.nonce or vid.get("sub") != owner.user:
+            ctx.violation("hybrid-foreign-artefact-stored:id_token", "verified ID-token claims recorded under the state of "
+                          "flow %d are not that flow's (nonce %r, sub %r): %s"
+                          % (owner.n, (vid or {}).get("nonce"), (vid or {}).get("sub"), what), rec)
+
+
 def norm_db(snap):
     return {(iss, st): rec for iss, db, _ in snap for st, rec in db.items()}
 
@@ -163,6 +245,8 @@ def oracle(ctx, world, flows, rec):
             elif f is None and after_map.get((iss, key)) != target[1]:
                 ctx.violation("frame-map-foreign-binding", "operation for %s bound %r to %r: %s"
                               % (target, key, after_map.get((iss, key)), what), rec)
+        if kind == "authz" and "members" in det:
+            hybrid_oracle(ctx, flows, det, target, issued, ok and not is_error_resp, after_db, what, rec)
         if not ok or is_error_resp:
             ctx.count("verdict:%s-refused" % kind)
             continue
@@ -343,6 +427,52 @@ def random_history(ctx, base_world, rng, traces):
     finish(ctx, w, flows, "random", traces)
 
 
+def hybrid_matrix(ctx, base_world, traces, rts=RT_HYBRID, sig=None, tag=""):
+    """Flow 0 = A, flow 1 = B (same client, other user), flow 2 = C (other issuer), all of response type rt.
+    Every response {state of A} x {code of A / B / absent} x {ID Token of A / B / C / absent} x {access token of
+    A / B / absent} is delivered to A's client - the full table, not a sample - followed by the genuine responses
+    of A and of B (each must still be served whatever happened before)."""
+    for rt in rts:
+        plan = [(H.ISS, "diana", rt), (H.ISS, "bob", rt), (H.ISS2, "carol", rt)]
+        for code_of in (0, 1, None):
+            for idt_of in (0, 1, 2, None):
+                for at_of in (0, 1, None):
+                    w = H.fresh_world(base_world)
+                    flows = start(w, plan)
+                    for f in flows:
+                        mint_own(f, w.clock.now, sig if f.issuer == H.ISS else None)
+                    pick = lambda k: None if k is None else flows[k]    # noqa: E731
+                    w.authz_hybrid(H.ISS, flows[0], pick(code_of), pick(idt_of), pick(at_of))
+                    deliver_genuine(w, flows[0])
+                    deliver_genuine(w, flows[1])
+                    name = "hybrid%s:%s:code=%s,idt=%s,at=%s" % (tag, rt.replace(" ", "+"), code_of, idt_of, at_of)
+                    finish(ctx, w, flows, name, traces)
+
+
+def random_hybrid_history(ctx, base_world, rng, traces):
+    """2-5 pending flows of random response types over the issuers of the world; 6-12 front-channel deliveries:
+    half of them the genuine response of a flow, the others recombined (each member present with probability
+    0.7 and taken from a random flow), now and then delivered to another issuer's client."""
+    w = H.fresh_world(base_world)
+    issuers = list(w.clients)
+    k = rng.randint(2, 5)
+    plan = [(rng.choice(issuers), rng.choice(USERS), rng.choice(RT_HYBRID + ["code"])) for _ in range(k)]
+    flows = start(w, plan)
+    for f in flows:
+        mint_own(f, w.clock.now)
+    for _ in range(rng.randint(6, 12)):
+        a = rng.choice(flows)
+        if rng.random() < 0.5:
+            deliver_genuine(w, a, to=rng.choice(issuers) if rng.random() < 0.1 else None)
+            continue
+        anyf = lambda p=0.7: rng.choice(flows) if rng.random() < p else None    # noqa: E731
+        near = lambda: a if rng.random() < 0.6 else anyf(1.0)                   # noqa: E731
+        to = rng.choice(issuers) if rng.random() < 0.15 else a.issuer
+        w.authz_hybrid(to, a, near() if rng.random() < 0.7 else None, near() if rng.random() < 0.8 else None,
+                       near() if rng.random() < 0.7 else None)
+    finish(ctx, w, flows, "random-hybrid", traces)
+
+
 def run(ctx):
     import logging
     logging.disable(logging.CRITICAL)
@@ -361,6 +491,15 @@ def run(ctx):
             continue
         authz_matrix(ctx, wd, traces)
         token_matrix(ctx, wd, traces)
+    # hybrid / implicit responses recombined member by member: the full table on a client behind an RPHandler
+    # and (quick tier: the response type with all three members) on a stand-alone client
+    hybrid_matrix(ctx, worlds["rph3"], traces)
+    hybrid_matrix(ctx, worlds["sa2"], traces, rts=RT_HYBRID if not ctx.quick else RT_HYBRID[:1], tag="-sa")
+    # other signing algorithms (the left hash is as wide as the algorithm says: 384 bits; an EC key)
+    for tag, sig, rph, rts in (("-rs384", ("RS384", "iss_rsa1", "r1"), False, RT_HYBRID[:1]),
+                               ("-es256", ("ES256", "iss_ec", "e1"), True, RT_HYBRID[3:4])):
+        wd = H.make_world(clock, issuers=(H.ISS, H.ISS2), rph=rph, reg="dynamic", sigalg=sig[0])
+        hybrid_matrix(ctx, wd, traces, rts=rts if ctx.quick else RT_HYBRID, sig=sig, tag=tag)
     n = 360 if ctx.quick else 6000
     names = list(worlds)
     for i in range(n):
@@ -368,6 +507,9 @@ def run(ctx):
     one = H.make_world(clock, issuers=(H.ISS,), rph=False, reg="dynamic", sigalg="RS256")
     for i in range(60 if ctx.quick else 600):
         random_history(ctx, one, rng, traces)
+    # (after the older random families, so that those draw the same histories for a seed as before)
+    for i in range(120 if ctx.quick else 3000):
+        random_hybrid_history(ctx, worlds[names[i % len(names)]], rng, traces)
     clock.uninstall()
     H.check_cases(ctx, H.TRACE_IMPORTS, H.TRACE_TYPE, "chk_trace", traces, shard=40, label="trace", diag="first_bad_step")
 
